@@ -123,6 +123,17 @@ def scope_package(root, scope, entries):
                 m += ["%s: !flags" % n, "  values: [u, v]"]
         m += ["Holder: !record", "  fields:"] + ["    h%d: %s" % (i, n) for i, n in enumerate(names)]
         m += ["Pr: !protocol", "  sequence:", "    hs: !stream", "      items: Holder"] + ["    q%d: %s" % (i, n) for i, n in enumerate(names)]
+    elif scope == "uniontags":
+        tags = [n for k, n in entries]
+        tys = ["int", "string", "float", "bool", "double", "long", "uint", "int8", "uint8", "int16", "uint16", "date", "time", "datetime", "ulong"]
+        m += ["U: !union"] + ["  %s: %s" % (t, tys[i % len(tys)] if i < len(tys) else "%s*" % tys[i % len(tys)]) for i, t in enumerate(tags)]
+        m += ["R: !record", "  fields:", "    u: U", "    v: U*"]
+        m += ["P: !protocol", "  sequence:", "    r: R", "    us: !stream", "      items: U"]
+    elif scope == "dims":
+        dims = [n for k, n in entries]
+        m += ["R: !record", "  fields:", "    a: int[%s]" % ", ".join(dims), "    b: float[%s]" % ", ".join("%s:2" % d for d in dims)]
+        m += ["  computedFields:"] + ["    s%d: size(a, '%s')" % (i, d) for i, d in enumerate(dims)] + ["    t%d: dimensionIndex(b, '%s')" % (i, d) for i, d in enumerate(dims)]
+        m += ["P: !protocol", "  sequence:", "    r: R"]
     elif scope == "imports":
         names = [n for k, n in entries]
         ns = names[0]
@@ -382,14 +393,19 @@ def main():
                 continue
             seen_pairs.add(key)
             jobs.append({"kind": "clash", "scope": cl["scope"], "entries": names, "sig": "+".join(sorted(sig(n) for k, n in names)), "spec_target": cl["t"]})
+    # union tags and array dimension names are member names too: the record-scope clash classes and the member words are tried there as well
+    for j in [j for j in jobs if j["kind"] == "clash" and j["scope"] == "record" and all(k == "field" for k, n in j["entries"])]:
+        for sc2, k2 in (("uniontags", "tag"), ("dims", "dim")):
+            jobs.append({"kind": "clash", "scope": sc2, "entries": [(k2, n) for k, n in j["entries"]], "sig": j["sig"], "spec_target": j["spec_target"]})
     # names landing on a keyword, and curated words: batched per scope, bisected on failure
     singles = {}
     for h in rhits:
         singles.setdefault(h["scope"], set()).add(tuple(h["entry"]))
     for scope, kinds, words in (("record", ("field", "computed"), MEMBER_WORDS), ("enum", ("enumvalue",), MEMBER_WORDS), ("protocol", ("step",), MEMBER_WORDS),
+                                ("uniontags", ("tag",), MEMBER_WORDS), ("dims", ("dim",), MEMBER_WORDS),
                                 ("types", ("type",), TYPE_WORDS), ("imports", ("namespace",), NAMESPACE_WORDS)):
         for w in words:
-            ok = re.fullmatch(r"[a-z][a-zA-Z0-9]{0,63}", w) if scope in ("record", "enum", "protocol") else re.fullmatch(r"[A-Z][a-zA-Z0-9]*", w)
+            ok = re.fullmatch(r"[a-z][a-zA-Z0-9]{0,63}", w) if scope in ("record", "enum", "protocol", "uniontags", "dims") else re.fullmatch(r"[A-Z][a-zA-Z0-9]*", w)
             if ok:
                 for k in kinds:
                     singles.setdefault(scope, set()).add((k, w))
@@ -400,7 +416,7 @@ def main():
             keep = [e for e in ents if e[1] in CPP_KEYWORDS + PY_KEYWORDS + MATLAB_KEYWORDS]
             rest = [e for e in ents if e not in keep]
             ents = sorted(keep + rest[:max(40, len(rest) // 3)])
-        size = 1 if scope == "imports" else 12
+        size = 1 if scope == "imports" else 6 if scope == "dims" else 12
         for i in range(0, len(ents), size):
             batch = ents[i:i + size]
             # a batch must not contain two entries that yardl itself would reject together (same model name twice)
